@@ -40,12 +40,12 @@ Print Assumptions C17_only_configured_word_recognised.
 
 Theorem C17_configured_word_recognised : forall w c,
   c_line c = true -> first_word (trim (c_text c)) = Some w -> exists d, parse_dir w c = Some d.
-Proof. intros w c H1 H2. apply is_directive_iff. auto. Qed.
+Proof. exact configured_word_recognised. Qed.
 Print Assumptions C17_configured_word_recognised.
 
 (* the guarantees of C05 hold verbatim with custom words *)
 Theorem C17_custom_bare_file_directive_silences : forall w lw r a orc f rd ext d,
   find_file_dir w (f_leading f) = Some d -> dir_codes d = [] ->
   lint_inner (mkOpts (Some w) lw r a) orc f rd ext = [].
-Proof. intros. eapply ignore_all_silences; eassumption. Qed.
+Proof. exact custom_bare_file_directive_silences. Qed.
 Print Assumptions C17_custom_bare_file_directive_silences.
